@@ -64,15 +64,27 @@ class SweepProp(Prop):
     use_schedule = True
     force_update_prob = 0.3
     max_ticks = 3000
+    truncate = None       # sweep only the first N ticks of longer worlds
 
-    def make_profile(self, tier):
+    variants = []          # [(probability, profile overrides)] swarm focus
+
+    def make_profile(self, tier, seed=None):
         p = dict(self.profile)
         if tier == 'thorough':
             p.update(self.profile_thorough)
+        if seed is not None and self.variants:
+            g = rng.Streams(seed)('variant')
+            u = g.random()
+            acc = 0.0
+            for prob, ov in self.variants:
+                acc += prob
+                if u < acc:
+                    p.update(ov)
+                    break
         return p
 
     def make_case(self, seed, tier):
-        spec = world.gen(seed, self.make_profile(tier))
+        spec = world.gen(seed, self.make_profile(tier, seed))
         S = rng.Streams(seed)
         g = S('ticks')
         planes, fired = place_ticks(g, spec, self.tick_kinds)
@@ -111,15 +123,18 @@ class SweepProp(Prop):
         mons = self.monitors(case, spec)
         with sim.scratch_dir() as d:
             e = sim.execute(spec, d, plan=plan, monitors=mons,
-                            max_ticks=self.max_ticks)
+                            max_ticks=self.max_ticks, truncate=self.truncate)
             if e.status != 'ok':
                 return {'status': 'discard', 'reason': e.reason,
                         'violations': []}
             res = self.base_result(case, e)
             S, r = e.S, e.r
-            res['ticks'] = len(r.dz)
-            res['length_m'] = float(r.core_length)
+            res['ticks'] = len(r.dz) if not S.truncated else S.stop_tick
+            res['length_m'] = float(r.core_length) if not S.truncated \
+                else float(r.z[S.stop_tick])
             res['probes'] = dict(S.probes)
+            if S.truncated:
+                res['probes']['sweep.truncated'] = 1
             res['fired'] = dict(S.fired)
             for k, v in (case.get('tick_fired') or {}).items():
                 res['fired'][k] = res['fired'].get(k, 0) + v
